@@ -105,6 +105,7 @@ type Path struct {
 	fnsHit    map[*ssa.Function]bool
 	nQueries  int
 	mapOrderRev bool
+	epoch        int
 	cur          *Frame
 	nChans       int
 	preds        map[string]*Term
@@ -202,6 +203,12 @@ func (p *Path) addPC(c *Term) {
 }
 
 func (p *Path) sync() {
+	if p.epoch != p.w.sv.epoch {
+		// the solver process was restarted: re-establish this path's frame
+		p.epoch = p.w.sv.epoch
+		p.w.sv.Push()
+		p.synced = 0
+	}
 	for ; p.synced < len(p.pc); p.synced++ {
 		p.w.sv.Assert(p.pc[p.synced])
 	}
@@ -215,13 +222,16 @@ func (p *Path) query(extra ...*Term) Res {
 	for _, e := range extra {
 		sv.Assert(e)
 	}
+	ep := sv.epoch
 	r := sv.Check()
 	p.nQueries++
 	if e := sv.TakeError(); e != "" {
 		p.w.noteSolverError(e)
 		r = Unknown
 	}
-	sv.Pop()
+	if sv.epoch == ep {
+		sv.Pop()
+	}
 	return r
 }
 
@@ -233,6 +243,7 @@ func (p *Path) queryModel(extra ...*Term) (Res, map[string]ModelValue) {
 	for _, e := range extra {
 		sv.Assert(e)
 	}
+	ep := sv.epoch
 	r := sv.Check()
 	p.nQueries++
 	if e := sv.TakeError(); e != "" {
@@ -243,7 +254,9 @@ func (p *Path) queryModel(extra ...*Term) (Res, map[string]ModelValue) {
 	if r == Sat {
 		m = sv.Model(p.vars)
 	}
-	sv.Pop()
+	if sv.epoch == ep {
+		sv.Pop()
+	}
 	return r, m
 }
 
@@ -424,6 +437,7 @@ func (p *Path) queryModelTerm(t *Term, extra ...*Term) (Res, uint64) {
 	}
 	aux := p.tt().NewVar(fmt.Sprintf("aux_%d", t.S.W), t.S, nil)
 	sv.Assert(p.tt().Eq(aux.T, t))
+	ep := sv.epoch
 	r := sv.Check()
 	p.nQueries++
 	var val uint64
@@ -431,7 +445,9 @@ func (p *Path) queryModelTerm(t *Term, extra ...*Term) (Res, uint64) {
 		m := sv.Model([]*Var{aux})
 		val = m[aux.Name].U
 	}
-	sv.Pop()
+	if sv.epoch == ep {
+		sv.Pop()
+	}
 	return r, val
 }
 
@@ -623,7 +639,8 @@ func (p *Path) Assert(c Value, clause string) {
 	if ct.IsConst() && ct.C != 0 {
 		return
 	}
-	if ct.SV != nil && !p.ent[ct.SV] {
+	if ct.SV != nil {
+		// the narrowed domain over-approximates the feasible values: all-true on it is conclusive
 		if _, f := p.tabRange(ct); !f {
 			return
 		}
